@@ -66,6 +66,12 @@ func genC18(g *gen) {
 					fmt.Sprintf("atbox $%d 0 -1", shared[0]))
 				lv++
 			}
+			if dt != "c128" && len(sh) >= 2 && gi < 3 {
+				// arg reductions along the last axis of a shared tensor by several goroutines at once (the operand's
+				// metadata must only be read)
+				steps = append(steps, fmt.Sprintf("arg %s %s $%d %d vs=2", []string{"argmax", "argmin"}[gi%2], []string{"fn", "meth"}[gi%2], shared[gi%len(shared)], len(sh)-1), fmt.Sprintf("dump $%d", lv))
+				lv++
+			}
 			nsteps := 3 + g.r.intn(6)
 			for s := 0; s < nsteps; s++ {
 				sv := shared[g.r.intn(len(shared))]
@@ -110,7 +116,7 @@ func genC18(g *gen) {
 					lv++
 				case 12: // arg reductions
 					if dt != "c128" {
-						steps = append(steps, fmt.Sprintf("arg %s fn $%d %s vs=2", g.r.pick([]string{"argmax", "argmin"}), sv, g.r.pick([]string{"0", "all"})), fmt.Sprintf("dump $%d", lv))
+						steps = append(steps, fmt.Sprintf("arg %s fn $%d %s vs=2", g.r.pick([]string{"argmax", "argmin"}), sv, g.r.pick([]string{"0", "all", fmt.Sprint(len(sh) - 1), fmt.Sprint(len(sh) - 1)})), fmt.Sprintf("dump $%d", lv))
 						lv++
 					}
 				case 13: // products: the shared tensor with a private transposed copy of another shared one, or two shared vectors
